@@ -150,6 +150,9 @@ def window_when_(
         d.add(source.subscribe(on_next, on_error, on_completed, scheduler=scheduler))
 
         def create_window_on_completed():
+            if r.is_disposed:
+                return
+
             try:
                 window_close = closing_mapper()
             except Exception as exception:
